@@ -16,6 +16,14 @@ typedef struct Queue_int QI;
 unsigned int mv_k;           /* ghost index k: "for all k" facts are stated at mv_k */
 unsigned int mv_j;           /* second ghost index, chosen by each contract */
 int mv_v0, mv_v1, mv_vm1, mv_vj;   /* items k, k+1, k-1 and j of the pre-state (when those indices are valid) */
+/* complete mirror of the pre-state ring (physical slots) and of the call's arguments: only used to rebuild the
+ * verifier's counterexample as a native Queue<int32> (native/queue_replay.cpp) */
+unsigned int mv_size, mv_count, mv_head; _Bool mv_small; int mv_slot[8]; unsigned int mv_a0, mv_a1; int mv_ai;
+#define Q_MIRROR_SLOT(q, i) ((i) >= (q)->_queueSize || (q)->_queue[i] == mv_slot[i])
+#define Q_MIRROR(q) (mv_size == (q)->_queueSize && mv_count == (q)->_itemCount && mv_head == (q)->_headIndex && \
+      mv_small == ((q)->_queue == (q)->_smallQueue) && \
+      Q_MIRROR_SLOT(q, 0) && Q_MIRROR_SLOT(q, 1) && Q_MIRROR_SLOT(q, 2) && Q_MIRROR_SLOT(q, 3) && \
+      Q_MIRROR_SLOT(q, 4) && Q_MIRROR_SLOT(q, 5) && Q_MIRROR_SLOT(q, 6) && Q_MIRROR_SLOT(q, 7))
 
 #define Q_SMALLN ((unsigned int)(sizeof(((QI *)0)->_smallQueue) / sizeof(int)))
 #define QN(q) ((q)->_itemCount)
@@ -44,7 +52,7 @@ int mv_v0, mv_v1, mv_vm1, mv_vj;   /* items k, k+1, k-1 and j of the pre-state (
 #ifndef MV_QCAP_POST
 # define MV_QCAP_POST (4 * MV_QCAP + 8)
 #endif
-#define WF_Q_PRE(q) (WF_Q(q) && (q)->_queueSize <= MV_QCAP && Q_SNAP(q))
+#define WF_Q_PRE(q) (WF_Q(q) && (q)->_queueSize <= MV_QCAP && Q_SNAP(q) && Q_MIRROR(q))
 /* post-state: same well-formedness, stated without is_fresh (the block is whatever the code allocated) */
 #define WF_Q_POST(q) ( \
       (((q)->_queue == (int *)0 && (q)->_queueSize == 0) || \
@@ -153,7 +161,7 @@ __CPROVER_ensures(mv_k >= QN(this) || Q_AT(this, mv_k) == mv_v0)
 
 /* ---------------- replace / insert / add ---------------- */
 struct status_t Queue_int__ReplaceItemAt__2(QI *this, unsigned int index, int *newItem)
-__CPROVER_requires(WF_Q_PRE(this) && __CPROVER_is_fresh(newItem, sizeof(int)))
+__CPROVER_requires(WF_Q_PRE(this) && __CPROVER_is_fresh(newItem, sizeof(int)) && *newItem == mv_ai)
 Q_FRAME(this)
 __CPROVER_ensures(WF_Q_POST(this))
 __CPROVER_ensures(ST_OK(__CPROVER_return_value) == (index < __CPROVER_old(QN(this))))
@@ -237,7 +245,7 @@ __CPROVER_ensures(mv_k >= QN(this) || Q_AT(this, mv_k) == \
 
 /* ---------------- queries (frame: nothing) ---------------- */
 int Queue_int__IndexOf(QI *this, int *item, unsigned int startAt, unsigned int endAtPlusOne)
-__CPROVER_requires(WF_Q_PRE(this) && __CPROVER_is_fresh(item, sizeof(int)))
+__CPROVER_requires(WF_Q_PRE(this) && __CPROVER_is_fresh(item, sizeof(int)) && *item == mv_ai)
 __CPROVER_assigns()
 __CPROVER_ensures(__CPROVER_return_value >= -1 && (__CPROVER_return_value < 0 || (unsigned int)__CPROVER_return_value < QN(this)))
 /* a hit is a hit inside the window, and nothing earlier in the window matches */
@@ -245,7 +253,7 @@ __CPROVER_ensures(__CPROVER_return_value < 0 || (Q_AT(this, __CPROVER_return_val
 __CPROVER_ensures(!(mv_k >= startAt && mv_k < endAtPlusOne && mv_k < QN(this) && Q_AT(this, mv_k) == *item) || (__CPROVER_return_value >= 0 && (unsigned int)__CPROVER_return_value <= mv_k))
 ;
 int Queue_int__LastIndexOf(QI *this, int *item, unsigned int startAt, unsigned int endAt)
-__CPROVER_requires(WF_Q_PRE(this) && __CPROVER_is_fresh(item, sizeof(int)))
+__CPROVER_requires(WF_Q_PRE(this) && __CPROVER_is_fresh(item, sizeof(int)) && *item == mv_ai)
 __CPROVER_assigns()
 __CPROVER_ensures(__CPROVER_return_value >= -1 && (__CPROVER_return_value < 0 || (unsigned int)__CPROVER_return_value < QN(this)))
 __CPROVER_ensures(__CPROVER_return_value < 0 || (Q_AT(this, __CPROVER_return_value) == *item && (unsigned int)__CPROVER_return_value <= startAt && (unsigned int)__CPROVER_return_value >= endAt))
